@@ -107,6 +107,10 @@ class DWorld(object):
                     order = order[:-1]
                 elif n == 'foreign':
                     order = order[:-1] + [ComponentID('foreign')]
+                elif n == 'repeat':
+                    order = order[::-1] + order[-1:]          # every attribute, one of them twice: not a permutation
+                elif n == 'repeat_same':
+                    order = order + order[:1]                 # the current order followed by a repeated attribute
                 d.reorder_components(order)
             elif op == 'UpdateId':
                 new = ComponentID(m)
@@ -154,7 +158,7 @@ class DWorld(object):
             else:
                 raise ValueError(op)
         except (ValueError, TypeError) as e:
-            if op in ('AddMainBadShape', 'UpdateValuesBadShape') or (op == 'Reorder' and n in ('short', 'foreign')):
+            if op in ('AddMainBadShape', 'UpdateValuesBadShape') or (op == 'Reorder' and n in ('short', 'foreign', 'repeat', 'repeat_same')):
                 return type(e).__name__
             raise
         return None
